@@ -8,6 +8,7 @@ import (
 	"sort"
 	"strings"
 
+	badger "github.com/dgraph-io/badger/v4"
 	"github.com/ostafen/clover/v2/document"
 	"github.com/ostafen/clover/v2/query"
 
@@ -302,18 +303,25 @@ func RunFault(c *core.Ctx) {
 			for p := range keep {
 				positions = append(positions, p)
 			}
+			sort.Ints(positions)
 		}
 		c.Exhaustive("positions:"+op.name+":"+shapeName, exhaustive)
 		for _, pos := range positions {
-			for _, sticky := range []bool{false, true} {
+			for _, mode := range []string{"one-shot", "sticky", "conflict-for-ever"} {
 				ev := st.Trace[faultable[pos-1]]
-				mode := "one-shot"
-				if sticky {
-					mode = "sticky"
+				sticky := mode == "sticky"
+				flt := mon.Fault{Nth: pos, Sticky: sticky}
+				if mode == "conflict-for-ever" {
+					// a commit refused with the store's own conflict error, and every later commit of the operation too:
+					// an operation may retry, it may not report success in the end
+					if ev.Kind != mon.KCommit {
+						continue
+					}
+					flt = mon.Fault{Nth: pos, Err: fmt.Errorf("injected: %w", badger.ErrConflict), EveryCommit: true}
 				}
 				label := fmt.Sprintf("%s with store call #%d (%s) failing %s", op.name, pos, ev.Kind, mode)
 				h.MS.BeginOp(false)
-				h.MS.SetFault(mon.Fault{Nth: pos, Sticky: sticky})
+				h.MS.SetFault(flt)
 				err := Do(op.run)
 				st2 := h.MS.EndOp()
 				c.Eval(1)
